@@ -11,7 +11,7 @@ from typing import List, Optional
 SPI_COST_NS = 10_000
 T_TX_NS = 300_000
 T_ACK_NS = 200_000
-MAX_SPI_PER_CALL = 20_000  # watchdog: a public call may not need more transactions than this
+MAX_SPI_PER_CALL = 400  # watchdog: no driver-level public call needs more transactions (jump semantics)
 
 
 class SimTimeout(Exception):
@@ -111,7 +111,10 @@ class SimRadio:
     def write_reg(self, reg: int, d: bytes):
         v = d[0]
         if reg == 0x00:
-            self._set(reg, "config", self._masked("CONFIG", 0x7F, v))
+            v = self._masked("CONFIG", 0x7F, v)
+            if self.ce and (v & 1) != (self.config & 1):
+                self.violations.append("CE:role-change-with-CE-high")
+            self._set(reg, "config", v)
         elif reg == 0x01:
             self._set(reg, "en_aa", self._masked("EN_AA", 0x3F, v))
         elif reg == 0x02:
@@ -387,10 +390,16 @@ class SimWorld:
 
     def inject(self, idx: int, pipe: int, data: bytes):
         r = self.radios[idx]
-        if r.rx_mode() and len(r.rx_fifo) < 3:
-            r.rx_fifo.append((pipe, bytes(data)))
-            r.flags |= 0x40
-            r.rpd = True
+        if not (r.rx_mode() and len(r.rx_fifo) < 3 and pipe < 6 and r.en_rxaddr & (1 << pipe)):
+            return
+        if r.esb() and r.dpl_on(pipe):
+            if not 1 <= len(data) <= 32:
+                return
+        elif len(data) != r.rx_pw[pipe] or not data:
+            return
+        r.rx_fifo.append((pipe, bytes(data)))
+        r.flags |= 0x40
+        r.rpd = True
 
 
 class SimSpiDev:
